@@ -1193,7 +1193,7 @@ func C13() *check.Property {
 		Title:    "Goroutine-safe parts of the API are free of data races",
 		Patterns: cat(CorePatterns, []string{PromPkg}),
 		Scope:    []string{ro},
-		Rules:    []check.Rule{ruleTypeProtection(), ruleSCVarProtection(), ruleHelperPointerProtection(), ruleNoDowngrade(), ruleChanCloseSend(), ruleShareGuarded(), ruleLockPairing(), ruleMultiProducerSafe(), withScope(ruleStateLevel(), PromPkg)},
+		Rules:    []check.Rule{ruleTypeProtection(), ruleSCVarProtection(), ruleHelperPointerProtection(), ruleNoDowngrade(), ruleChanCloseSend(), ruleShareGuarded(), ruleLockPairing(), ruleMultiProducerSafe(), withScope(ruleStateLevel(), PromPkg), ruleAtomicPointeeImmutable()},
 		Explanation: "Static lock-set discipline check (Eraser's rule applied to the source), restricted to the state the property names. For the goroutine-safe types every field written after construction must be accessed atomically, through a concurrency-safe type, or with one " +
 			"common mutex held by all accesses (data-flow of held locks over each method's CFG, with deferred unlocks, TryLock edges, and lock requirements of helpers/closures inferred from all their call sites). For every operator built with a safe constructor, each closure variable " +
 			"that is written after publication and reachable from two possibly-concurrent emission contexts (the relation of C02, teardown included) must be protected the same way. Share's per-application state is checked likewise. It reports locations that are not consistently protected; " +
@@ -1201,6 +1201,6 @@ func C13() *check.Property {
 		NotDecided:  "races through memory the analysis does not track (values reached through pointers handed to helpers are checked inside the helper only; user-supplied objects); happens-before edges other than locks, atomics, channel-typed values and the ordering facts S1-S4.",
 		Assumptions: []string{"sync, sync/atomic, channels and the internal xsync/xatomic wrappers are correct", "sources are individually sequential (as in C02)"},
 		Floors:      map[string]int{"safe_types": 9, "field_accesses": 200, "safe_scs": 25, "shared_variables": 40, "functions_with_locks": 40, "multi_producer_scs": 20},
-		Controls:    map[string]string{"zz_verif_controls_c13.go": roControl(controlsC13), "zz_verif_controls_c07.go": roControl(controlsC07), "zz_verif_controls_c02.go": roControl(controlsC02), "zz_verif_controls_c12.go": roControl(controlsC12)},
+		Controls:    map[string]string{"zz_verif_controls_c13.go": roControl(controlsC13), "zz_verif_controls_c07.go": roControl(controlsC07), "zz_verif_controls_c02.go": roControl(controlsC02), "zz_verif_controls_c12.go": roControl(controlsC12), "zz_verif_controls_atomicptr.go": roControl(controlsAtomicPointee)},
 	}
 }
